@@ -37,6 +37,17 @@ PROPS = {
         technique="Lean 4 proof parametric in a codec law (reusing the C07 refinement lemmas) + differential correspondence through the real codecs",
         explanation="partial: codec law is a hypothesis; everything Set itself contributes is proved",
     ),
+    "C20": dict(
+        title="gogenproto: protoc gets exactly the in-scope protos, includes, mappings",
+        lean_modules=["Properties.C20"],
+        harness=[dict(bin="h-gogenproto")],
+        trusted=[GO_TRUST % "h-gogenproto", "filepath.WalkDir/Abs/Rel/Join, strings.Cut, os/exec (modelled as operations on component lists / a tree, compared differentially, not verified)", "go/packages: the package path of a directory is the parameter pkgOf of the theorems; the driver instantiates it with <module path>/<dir relative to the module root>", "the recording /bin/sh stub that stands in for protoc"],
+        assumptions=["a file's `declares option go_package` bit is an attribute of the model's file node; the line scan of protoFileHasGoPackage is not modelled (canonical `option go_package = \"...\";` in the domain stream; other spellings only in the out-of-domain stream)", "explicit =prefix values are clean relative import paths (no empty, `.` or `..` components); directory names contain no `=`", "every directory whose package is looked up lies in the scratch module and holds a Go file"],
+        level_text="PLACEHOLDER",
+        level_note="PLACEHOLDER",
+        technique="Lean 4 proof (mutual structural induction over directory trees) + differential correspondence on generated trees x flag settings through a recording protoc stub",
+        explanation="PLACEHOLDER",
+    ),
 }
 
 # properties not claimed, with the reason (kept current; see DESIGN.md)
